@@ -8,19 +8,20 @@ compat.install()
 
 from xdsl.dialects import affine, memref, test  # noqa: E402
 
-from .interp import HarnessError, Machine, make_handler  # noqa: E402
+from .interp import HarnessError, Machine, Violation, make_handler  # noqa: E402
 
 TABLE: dict = {}
 handler = make_handler(TABLE)
 
 
 class Ref:
-    """A memref value: where it comes from (alloc site / argument), its offsets and sizes."""
+    """A memref value: where it comes from (alloc site / argument), its offsets and sizes; `inst` tells the executions
+    of one allocation site apart (not part of the trace: hoisting an allocation changes it on purpose)."""
 
-    __slots__ = ("site", "offs", "sizes")
+    __slots__ = ("site", "offs", "sizes", "inst")
 
-    def __init__(self, site, offs, sizes):
-        self.site, self.offs, self.sizes = site, tuple(offs), tuple(sizes)
+    def __init__(self, site, offs, sizes, inst=None):
+        self.site, self.offs, self.sizes, self.inst = site, tuple(offs), tuple(sizes), inst
 
     def descr(self):
         return (self.site, self.offs, self.sizes)
@@ -33,6 +34,8 @@ class EffectMachine(Machine):
         super().__init__(mod)
         self.hist: list = []
         self.allocs: list = []
+        self.n_inst = 0
+        self.freed: set = set()
         self.cells: dict = {}  # contents of buffers written with memref.store: (site, absolute index) -> value
         self.probes: dict = {}
 
@@ -52,6 +55,8 @@ def _testop(m: EffectMachine, op, vals, core):
     ops = []
     for o in op.operands:
         v = m.get(vals, o)
+        if isinstance(v, Ref) and v.inst in m.freed:
+            raise Violation("use-after-free", f"op #{_tag(op)} uses a buffer of allocation site {v.site[1]} after it was freed")
         ops.append(v.descr() if isinstance(v, Ref) else v)
     m.hist.append((_tag(op), tuple(ops)))
     for r in op.results:
@@ -64,7 +69,8 @@ def _alloc(m: EffectMachine, op, vals, core):
     sizes = [next(dyn) if d in (-1, memref.DYNAMIC_INDEX) else d for d in op.memref.type.get_shape()]
     site = op.attributes.get("vsite")
     site = site.value.data if site is not None else id(op)
-    vals[op.memref] = Ref(("alloc", site), [0] * len(sizes), sizes)
+    m.n_inst += 1
+    vals[op.memref] = Ref(("alloc", site), [0] * len(sizes), sizes, inst=m.n_inst)
     m.allocs.append((site, tuple(sizes)))
 
 
@@ -84,7 +90,11 @@ def _store(m: EffectMachine, op, vals, core):
 
 @handler(memref.DeallocOp)
 def _dealloc(m, op, vals, core):
-    m.get(vals, op.memref)
+    r = m.get(vals, op.memref)
+    if isinstance(r, Ref) and r.inst is not None:
+        if r.inst in m.freed:
+            raise Violation("double-free", f"memref.dealloc of a buffer of allocation site {r.site[1]} that was freed before (an allocation moved out of a loop whose body still frees it)")
+        m.freed.add(r.inst)
 
 
 @handler(memref.DimOp)
@@ -118,9 +128,9 @@ def _subview(m: EffectMachine, op, vals, core):
                 raise HarnessError("subview sizes do not match the result shape")
         offs_full = tuple(offs)
         sizes = [sizes[j] for j in keep]
-        vals[op.result] = Ref(src.site, list(offs_full), sizes)
+        vals[op.result] = Ref(src.site, list(offs_full), sizes, inst=src.inst)
         return
-    vals[op.result] = Ref(src.site, offs, sizes)
+    vals[op.result] = Ref(src.site, offs, sizes, inst=src.inst)
 
 
 @handler(affine.MinOp)
